@@ -80,7 +80,145 @@ func c14Cases(tier string, seed int64) []string {
 	for i := 0; i < np; i++ {
 		l = append(l, fmt.Sprintf("race:producer-vs-sync:%d", i))
 	}
+	for i := 0; i < nr; i++ {
+		l = append(l, fmt.Sprintf("race:replace:%d", i))
+	}
 	return l
+}
+
+// c14Replace: maximal contention on ONE account — the writer replaces the account's pooled block again and again
+// (competitors of rising priority at the same height, sometimes with a successor on top), readers do nothing but read
+// that account's frontier. Every read is judged for linearizability (see c14Readers) and for self-consistency.
+func c14Replace(c *fw.C, caseID string) {
+	r := c.Rand(caseID)
+	base := c.ScratchDir("c14x")
+	defer os.RemoveAll(base)
+	N := simnet.Open("N", base+"/N", simnet.MockGenesis(), g.PillarKeys)
+	defer N.Stop()
+	N.MustProduce(3)
+	u := g.User1
+	type ver struct {
+		hash       types.Hash
+		start, end int64
+	}
+	var clock, started, appended int64
+	var vmu sync.Mutex
+	frontier := func() (types.Hash, uint64) {
+		f, _ := N.Chain.GetFrontierAccountStore(u.Address).Frontier()
+		if f == nil {
+			return types.Hash{}, 0
+		}
+		return f.Hash, f.Height
+	}
+	h0, height0 := frontier()
+	versions := []ver{{h0, 0, 0}}
+	write := func(op func()) {
+		atomic.AddInt64(&started, 1)
+		s := atomic.AddInt64(&clock, 1)
+		op()
+		e := atomic.AddInt64(&clock, 1)
+		vmu.Lock()
+		if h, _ := frontier(); versions[len(versions)-1].hash != h {
+			versions = append(versions, ver{h, s, e})
+		}
+		vmu.Unlock()
+		atomic.AddInt64(&appended, 1)
+	}
+	var stop, fails int32
+	var checked int64
+	var wg sync.WaitGroup
+	report := func(sig string, d interface{}) {
+		if atomic.AddInt32(&fails, 1) == 1 {
+			c.Violation(sig, d)
+		}
+	}
+	for ri := 0; ri < 4; ri++ {
+		wg.Add(1)
+		go func() {
+			defer wg.Done()
+			for atomic.LoadInt32(&stop) == 0 {
+				startedAtCall := atomic.LoadInt64(&started)
+				tc := atomic.AddInt64(&clock, 1)
+				as := N.Chain.GetFrontierAccountStore(u.Address)
+				f, _ := as.Frontier()
+				tr := atomic.AddInt64(&clock, 1)
+				if f == nil {
+					report("reader-observed-account-without-frontier", map[string]interface{}{"confirmed_height": height0})
+					return
+				}
+				if f.Height < height0 {
+					report("reader-observed-frontier-below-the-confirmed-block", map[string]interface{}{"observed": f.Height, "confirmed": height0})
+					return
+				}
+				for k := 0; k < 200000 && atomic.LoadInt64(&appended) < startedAtCall; k++ {
+					runtime.Gosched()
+				}
+				if atomic.LoadInt64(&appended) < startedAtCall {
+					continue
+				}
+				vmu.Lock()
+				found, admissible := false, false
+				for i, v := range versions {
+					if v.hash != f.Hash {
+						continue
+					}
+					found = true
+					nextEnd := int64(1) << 62
+					if i+1 < len(versions) {
+						nextEnd = versions[i+1].end
+					}
+					if v.start <= tr && tc <= nextEnd {
+						admissible = true
+					}
+				}
+				nv := len(versions)
+				vmu.Unlock()
+				if found && !admissible {
+					report("reader-observed-frontier-that-was-not-current-during-the-read", map[string]interface{}{"observed_height": f.Height, "read_call": tc, "read_return": tr, "versions": nv,
+						"note": "the value equals an older version of the account's frontier: the state in the middle of a replacement"})
+					return
+				}
+				if found {
+					atomic.AddInt64(&checked, 1)
+				}
+			}
+		}()
+	}
+	// first pooled block, then competitors
+	tx, err := c14Gen(N, u, types.Hash{}, 0, 1, 1, g.User2.Address)
+	if err != nil {
+		c.Inconclusive("cannot create the first pooled block: " + err.Error())
+		atomic.StoreInt32(&stop, 1)
+		wg.Wait()
+		return
+	}
+	first := tx.Block
+	write(func() { N.CreateAccountBlock(tx) })
+	replaced := 0
+	for i := 0; i < 300 && atomic.LoadInt32(&fails) == 0; i++ {
+		ctx, err := c14Gen(N, u, first.PreviousHash, first.Height, uint64(i+2), int64(2+i), g.User2.Address)
+		if err != nil {
+			break
+		}
+		write(func() { N.CreateAccountBlock(ctx) })
+		if N.LastBlockErr == nil {
+			replaced++
+		}
+		if r.Intn(3) == 0 {
+			// a successor on top of the current winner: the next replacement pops two blocks
+			if stx, err := c14Gen(N, u, types.Hash{}, 0, 1, 1, g.User3.Address); err == nil {
+				write(func() { N.CreateAccountBlock(stx) })
+			}
+		}
+	}
+	atomic.StoreInt32(&stop, 1)
+	wg.Wait()
+	c.Eval(int(checked))
+	c.Count("replacements_under_contention", replaced)
+	c.Count("frontier_reads_checked_for_linearizability", int(checked))
+	if checked > 0 && replaced > 50 {
+		c.Distinct("race:replace contention run with >50 replacements")
+	}
 }
 
 func c14Run(c *fw.C, caseID string) {
@@ -96,6 +234,8 @@ func c14Run(c *fw.C, caseID string) {
 		c14Readers(c, caseID)
 	case scan1(caseID, "race:producer-vs-sync:%d", &idx):
 		c14ProducerVsSync(c, caseID)
+	case scan1(caseID, "race:replace:%d", &idx):
+		c14Replace(c, caseID)
 	}
 }
 
@@ -666,8 +806,50 @@ func c14Readers(c *fw.C, caseID string) {
 	for _, u := range users {
 		record(u.Address)
 	}
+	// linearizability of the frontier read (per account, unique values = frontier hashes): every write gets an interval
+	// [start, end] on one logical clock; a read [call, ret] that returns hash H is admissible only if some version with
+	// hash H could have been current at an instant of the read: it began before the read returned and the version that
+	// replaced it had not been completed before the read was called. The state in the middle of a replacement (old
+	// block popped, new one not yet added) equals an OLD version and fails this.
+	type ver struct {
+		hash       types.Hash
+		start, end int64
+	}
+	var clock, started, appended int64
+	var vmu sync.Mutex
+	versions := map[types.Address][]ver{}
+	frontierHash := func(a types.Address) types.Hash {
+		f, _ := N.Chain.GetFrontierAccountStore(a).Frontier()
+		if f == nil {
+			return types.Hash{}
+		}
+		return f.Hash
+	}
+	for _, u := range users {
+		versions[u.Address] = []ver{{frontierHash(u.Address), 0, 0}}
+	}
+	// write wraps one writer operation that may change the frontier of the given accounts
+	write := func(accounts []types.Address, op func()) {
+		atomic.AddInt64(&started, 1)
+		s := atomic.AddInt64(&clock, 1)
+		op()
+		e := atomic.AddInt64(&clock, 1)
+		vmu.Lock()
+		for _, a := range accounts {
+			if h := frontierHash(a); versions[a][len(versions[a])-1].hash != h {
+				versions[a] = append(versions[a], ver{h, s, e})
+			}
+		}
+		vmu.Unlock()
+		atomic.AddInt64(&appended, 1)
+	}
+	var allUsers []types.Address
+	for _, u := range users {
+		allUsers = append(allUsers, u.Address)
+	}
 	var stop int32
 	var fails int32
+	var linChecked, linSkipped int64
 	var snapshots int64
 	var wg sync.WaitGroup
 	report := func(sig string, d interface{}) {
@@ -684,10 +866,46 @@ func c14Readers(c *fw.C, caseID string) {
 				u := users[rr.Intn(len(users))]
 				switch rr.Intn(4) {
 				case 0:
+					startedAtCall := atomic.LoadInt64(&started)
+					tc := atomic.AddInt64(&clock, 1)
 					as := N.Chain.GetFrontierAccountStore(u.Address)
 					f, _ := as.Frontier()
+					tr := atomic.AddInt64(&clock, 1)
 					if f == nil {
 						continue
+					}
+					// judge once every write that began before the read was called has been booked
+					for k := 0; k < 200000 && atomic.LoadInt64(&appended) < startedAtCall; k++ {
+						runtime.Gosched()
+					}
+					if atomic.LoadInt64(&appended) >= startedAtCall {
+						vmu.Lock()
+						vs := versions[u.Address]
+						found, admissible := false, false
+						for i, v := range vs {
+							if v.hash != f.Hash {
+								continue
+							}
+							found = true
+							nextEnd := int64(1) << 62
+							if i+1 < len(vs) {
+								nextEnd = vs[i+1].end
+							}
+							if v.start <= tr && tc <= nextEnd {
+								admissible = true
+							}
+						}
+						nv := len(vs)
+						vmu.Unlock()
+						switch {
+						case !found:
+							atomic.AddInt64(&linSkipped, 1) // written by an operation still in flight: not booked yet
+						case !admissible:
+							report("reader-observed-frontier-that-was-not-current-during-the-read", map[string]interface{}{"address": u.Address.String(), "observed_height": f.Height,
+								"read_call": tc, "read_return": tr, "versions_of_the_account": nv, "note": "the value equals an older version of this account's frontier: the state in the middle of a replacement"})
+						default:
+							atomic.AddInt64(&linChecked, 1)
+						}
 					}
 					z, _ := as.GetBalance(types.ZnnTokenStandard)
 					q, _ := as.GetBalance(types.QsrTokenStandard)
@@ -741,8 +959,10 @@ func c14Readers(c *fw.C, caseID string) {
 	for i := 0; i < nOps && atomic.LoadInt32(&fails) == 0; i++ {
 		u := users[r.Intn(len(users))]
 		if r.Intn(9) == 0 {
-			if _, err := N.Produce(0); err != nil {
-				report("producer-cannot-produce", err.Error())
+			var perr error
+			write(allUsers, func() { _, perr = N.Produce(0) })
+			if perr != nil {
+				report("producer-cannot-produce", perr.Error())
 				break
 			}
 			for _, x := range users {
@@ -765,13 +985,15 @@ func c14Readers(c *fw.C, caseID string) {
 		if err != nil {
 			continue
 		}
-		N.CreateAccountBlock(tx)
+		write([]types.Address{u.Address}, func() { N.CreateAccountBlock(tx) })
 		record(u.Address)
 	}
 	atomic.StoreInt32(&stop, 1)
 	wg.Wait()
 	c.Eval(int(snapshots))
 	c.Count("reader_snapshots", int(snapshots))
+	c.Count("frontier_reads_checked_for_linearizability", int(linChecked))
+	c.Count("frontier_reads_not_judged_value_not_booked_yet", int(linSkipped))
 	if snapshots > 0 {
 		c.Distinct(caseID)
 	}
